@@ -52,6 +52,10 @@ func scenarios(tier string) []svc.Scenario {
 			// service evaluates first depends on Go's map iteration order, which the harness does not own
 			svc.Scenario{Name: "converter-on-mark-and-data-tag", Converter: true, Program: []string{"import:P1", "addtag:mark/m=id:0", "converters:mark/m=conv", "addtag:tag/d=cdata:FOO", "import:P3", "import:P2"}},
 			svc.Scenario{Name: "converter-reattach", Converter: true, Program: []string{"import:P1", "addtag:tag/p=cport:1", "converters:tag/p=conv", "import:P3", "converters:tag/p=", "import:P2", "converters:tag/p=conv"}},
+			// several tags waiting at once: every order in which the service can evaluate them
+			svc.Scenario{Name: "two-tags-and-reference", Program: []string{"import:P1", "addtag:tag/d=cdata:foo3", "addtag:tag/p=sport:53", "addtag:tag/r=tag:d -tag:p", "import:P3"}},
+			svc.Scenario{Name: "two-tags-edit", Program: []string{"import:P1", "addtag:tag/p=cport:1", "addtag:tag/q=sport:53", "updtag:tag/p=cport:2000", "import:P2", "deltag:tag/q"}},
+			svc.Scenario{Name: "three-tags", Program: []string{"addtag:tag/p=cport:1", "addtag:tag/d=cdata:foo3", "addtag:service/s=sport:53", "import:P1", "import:P3"}},
 			svc.Scenario{Name: "restart", Program: []string{"import:P1", "addtag:tag/d=cdata:foo", "import:P2", "restart", "import:P3", "view.open:v1"}},
 		)
 	}
